@@ -119,11 +119,11 @@ def tent_cases(rng, tier):
         full = tier == "thorough" or (dn, dp) == (1, 1)
         for t in tents:
             for l in lims:
-                if full or rng.random() < 0.08:
+                if full or rng.random() < 0.05:
                     cases.append((t, l + (dn, dp), D, 2 * D, rng.random() < (1.0 if tier == "thorough" else 0.08)))
     # finer dyadic lattices (dyadic, so that Fraction inputs behave exactly like the floats the
     # instancer passes: a non-dyadic Fraction compared with its own float rounding trips asserts)
-    for _ in range(12000 if tier == "thorough" else 2000):
+    for _ in range(12000 if tier == "thorough" else 1200):
         D2 = rng.choice([8, 16])
         while True:
             t = tuple(sorted(rng.randint(-2 * D2, 2 * D2) for _ in range(3)))
@@ -413,7 +413,7 @@ def random_glyph(rng, big=False):
 
 def iup_cases(rng, tier):
     cases = []
-    N = 2500 if tier == "quick" else 12000
+    N = 1500 if tier == "quick" else 12000
     for i in range(N):
         coords, ends, deltas = random_glyph(rng, big=(i % 5 == 4))
         mask = [rng.random() < rng.choice([0.2, 0.5, 0.8]) for _ in deltas]
@@ -785,7 +785,7 @@ def build_tasks(chk):
     tasks += [("scalar", c) for c in chunks(scalar_cases(rng, tier), 400)]
     # seeded master sets in 3 and 4 axes (the 1- and 2-axis lattices come from TLC), corpus designspaces
     mcases = []
-    for _ in range(4000 if tier == "thorough" else 400):
+    for _ in range(4000 if tier == "thorough" else 250):
         n = rng.choice([3, 3, 4])
         D = rng.choice([2, 2, 4])
         k = rng.randint(2, 7)
@@ -806,7 +806,7 @@ def build_tasks(chk):
         mcases.append(("designspace", p, rng.getrandbits(48)))
     tasks += [("model", c) for c in chunks(mcases, 40)]
     tasks += [("iup", c) for c in chunks(iup_cases(rng, tier), 600)]
-    scases = [("random", None, rng.getrandbits(48)) for _ in range(2500 if tier == "thorough" else 300)]
+    scases = [("random", None, rng.getrandbits(48)) for _ in range(2500 if tier == "thorough" else 200)]
     fonts = variable_corpus()
     scases += [("font", p, rng.getrandbits(48)) for p in fonts]
     tasks += [("store", c) for c in chunks(scases, 12)]
@@ -820,7 +820,7 @@ def gen_model_tasks(chk, gen_sets):
     rng = chk.rng
     mcases = []
     for pts, D in gen_sets:
-        mcases.append(("lattice", (pts, D, rng.random() < (1.0 if chk.tier == "thorough" else 0.1), rng.random() < 0.25),
+        mcases.append(("lattice", (pts, D, rng.random() < (1.0 if chk.tier == "thorough" else 0.1), rng.random() < 0.15),
                        rng.getrandbits(48)))
     return [("model", c) for c in chunks(mcases, 60)]
 
@@ -858,8 +858,26 @@ def run_models_mc(chk):
     chk.log("MC_IUP: %d states" % r.distinct)
     r = chk.tlc("MC_VarStore", cfg="MC_VarStore" if tier == "quick" else "MC_VarStore_thorough", label="MC_VarStore", timeout=1500)
     chk.log("MC_VarStore: %d states" % r.distinct)
+    if tier == "thorough":
+        # TLC's own expression coverage of the semantic modules on the small configurations
+        zero = {}
+        for mod, cfg in (("MC_Tent", "MC_Tent"), ("MC_IUP", "MC_IUP"), ("MC_Model", "MC_Model1")):
+            r = chk.tlc(mod, cfg=cfg, coverage=True, label=cfg + "-coverage", timeout=1500)
+            zero[cfg] = coverage_zero_lines(r.stdout, ("Tent", "IUP", "Model", "VarSem"))
+        notes["tlc_coverage_zero_count_expressions"] = zero
     chk.notes.update(notes)
     return gen
+
+
+def coverage_zero_lines(stdout, modules):
+    import re
+
+    out = set()
+    for line in stdout.splitlines():
+        m = re.search(r"line (\d+), col (\d+) to line (\d+), col (\d+) of module (\w+): (\d+)\s*$", line)
+        if m and m.group(5) in modules and int(m.group(6)) == 0:
+            out.add("%s:%s" % (m.group(5), m.group(1)))
+    return sorted(out)
 
 
 def describe(t):
@@ -994,8 +1012,84 @@ def replay(chk, rep):
             fresh = [x for x in ts if x["op"] == t["op"]]
     except Exception as e:
         chk.log("could not re-run the case against the current tree (%s); re-judging the recording" % e)
-    cases = [t] + (fresh if isinstance(fresh, list) else [fresh] if fresh else [])
-    chk.log("re-judging %d case(s): the recording%s" % (len(cases), " and a fresh run of the current tree" if fresh else ""))
-    rej = judge_and_report(chk, cases)
+    fresh = fresh if isinstance(fresh, list) else [fresh] if fresh else []
+    if fresh:
+        # the verdict of the replay is the CURRENT tree's behaviour on the recorded input
+        old = chk.judge("Trace_C09", [t], timeout=900)
+        chk.log("the recording itself is %s" % ("rejected: %s" % old[0][1] if old else "accepted"))
+        chk.traces_validated = 0
+        chk.log("re-running the recorded input against the current tree (%d case(s))" % len(fresh))
+        rej = judge_and_report(chk, fresh)
+    else:
+        chk.log("re-judging the recording (the input cannot be re-run)")
+        rej = judge_and_report(chk, [t])
     for tr, clause in rej:
         chk.log("rejected:", clause, json.dumps(describe(tr), default=repr)[:500])
+
+def selftest(chk):
+    """vacuity check of the binding: a recorded output corrupted in one field must be rejected"""
+    chk.rule = "self-test: corrupted recordings must be rejected by TLC"
+    rng = random.Random(1)
+    good, bad = [], []
+    t = run_tent(((0, 2, 4), (-4, 0, 3, 1, 1), 4, 8, False))
+    good.append(t)
+    b = copy.deepcopy(t)
+    b["sols"][0][0] += 1
+    bad.append(b)
+    b = copy.deepcopy(t)
+    b["sols"] = b["sols"][:-1]
+    bad.append(b)
+    sc = run_scalar(("scalar", [(0, 2, 4), (-4, -2, 0)], [(1, -1), (2, -3)], 4))
+    good.append(sc)
+    b = copy.deepcopy(sc)
+    b["outs"][0] = [b["outs"][0][0] + 1, b["outs"][0][1]]
+    bad.append(b)
+    tags = TAGS[:2]
+    locs = [{}, {"aaaa": F(1)}, {"aaaa": F(1, 2)}, {"bbbb": F(-1)}, {"aaaa": F(1), "bbbb": F(1)}]
+    m = model_trace(locs, tags, rng)
+    good.append(m)
+    b = copy.deepcopy(m)
+    b["runs"][0]["deltas"][2] = [b["runs"][0]["deltas"][2][0] + 1, b["runs"][0]["deltas"][2][1]]
+    bad.append(b)
+    b = copy.deepcopy(m)
+    j = b["locs"].index([[1, 1], [0, 1]])
+    b["sups"][j] = [[[0, 1], [1, 1], [1, 1]], [[0, 1], [0, 1], [0, 1]]]   # forget the split against {aaaa: 1/2}
+    bad.append(b)
+    coords = [(0, 0), (2, 0), (4, 1), (4, 4), (0, 4)] + [(0, 0)] * 4
+    deltas = [(0, 0), (2, 1), (4, 0), (1, 3), (0, -2)] + [(0, 0)] * 4
+    io = run_iup(("iupopt", coords, [4], deltas, F(1, 2)))
+    good.append(io)
+    b = copy.deepcopy(io)
+    k = [i for i, d in enumerate(b["opt"]) if d][0]
+    b["opt"][k] = []
+    bad.append(b)
+    ii = run_iup(("iup", coords, [4], [deltas[0], None, deltas[2], None, None] + deltas[5:], 0))
+    good.append(ii)
+    b = copy.deepcopy(ii)
+    b["out"][1][0] = [b["out"][1][0][0] + 1, b["out"][1][0][1]]
+    bad.append(b)
+    for seed in range(7, 40):
+        st = run_store(("random", None, seed))
+        hit = [x for x in st if x["k"] == "store" and x["op"] == "optimize" and x["after"]["data"] and x["map"]
+               and x["after"]["data"][0]["items"] and x["after"]["data"][0]["items"][0]
+               and any(e[2:] == [0, 0] for e in x["map"]) and x["after"]["data"][0]["ri"]]
+        if hit:
+            good += [x for x in st if x["k"] == "store"]
+            b = copy.deepcopy(hit[0])
+            b["after"]["data"][0]["items"][0][0] += 1
+            bad.append(b)
+            break
+    rej = chk.judge("Trace_C09", good + bad, timeout=900)
+    rejected = {id(t) for t, c in rej if not c[0].startswith(("skip:", "note:"))}
+    got = {}
+    for t, c in rej:
+        got[id(t)] = c[0]
+    for t in good:
+        if id(t) in rejected:
+            raise MachineryError("self-test: a genuine recording was rejected: %s %s" % (got[id(t)], describe(t)))
+    missed = [t for t in bad if id(t) not in rejected]
+    if missed:
+        raise MachineryError("self-test: %d corrupted recordings were accepted, e.g. %s" % (len(missed), describe(missed[0])))
+    chk.notes["selftest"] = "%d corrupted recordings rejected (%s); %d genuine accepted" % (
+        len(bad), sorted({got[id(t)] for t in bad}), len(good))
+    chk.log(chk.notes["selftest"])
